@@ -263,7 +263,7 @@ def probes(ctx):
          [("s", "a:1"), ("s", "b:2")], "reference-dsl-control-structures.md: bound to a copy of the sub-map as it was before the loop started"),
         ("for-loop-over-map-variable-iterates-live-map", 'end{m = {"a":1,"b":2}; for (k in m) { m["c"] = 3; unset m["b"]; print k } for (k, v in m) { m[k] = v + 10; print v }}', [],
          [("s", "a"), ("s", "b"), ("s", "1"), ("s", "3")], "same, local map, single-variable loop"),
-        # repaired (ad8618c0f): in-place conversion of a scalar FIELD / OOSVAR was seen through a local bound to it by reference
+        # repaired (382305ab0): in-place conversion of a scalar FIELD / OOSVAR was seen through a local bound to it by reference
         ("indexed-assign-on-scalar-field-or-oosvar-changes-aliased-local", 'c = $a; $a["k"] = 1; $t = c', [[("a", "5")]],
          [R(("a", ("map", [("k", ("int", 1))])), ("t", ("int", 5)))], "assignments are by value: c keeps the value it was assigned"),
         ("indexed-assign-on-scalar-field-or-oosvar-changes-aliased-local", 'end{@s = 1; c = @s; @s["k"] = 2; print c}', [], [("s", "1")],
@@ -286,7 +286,7 @@ def probes(ctx):
         # fix 206974ae4 (clone c14-repo): $[[n]] / $[[[n]]] read in a function called from an end block dereferenced the nil record
         ("positional-read-without-record-panics", 'func f() { return typeof($[[1]]) . typeof($[[[1]]]) } end { print f() }', [], [("s", "absentabsent")],
          "reference-dsl-variables.md: field references outside the record context are absent"),
-        # fix 082c1d3f0: NF in an end block (or in a function called from one) dereferenced the nil record
+        # fix 909b9b1a2: NF in an end block (or in a function called from one) dereferenced the nil record
         ("nf-read-without-record-panics", 'func f() { return typeof(NF) } end { print typeof(NF) . f() }', [], [("s", "absentabsent")],
          "reference-dsl-variables.md: built-in variables; there is no current record in begin/end blocks"),
         # fix 5117208f0: a function literal inside a subr may return a value
